@@ -1,7 +1,7 @@
 import AffVerif.Proofs.ElimIdem
 import AffVerif.Proofs.InfOnly
 /-!
-Effectiveness of `infeasible_elimination` on total trees (C06, structural part): with decisive oracles, on a binary
+Effectiveness of `infeasible_elimination` on total trees (C06, structural part): for arbitrary oracles, on a binary
 tree whose decisions all have both branches and whose sibling pairs are either both fresh (`Indeterminate`) or both
 cached feasible — what every compose / eliminate / compose / eliminate pipeline produces —, no decision below the
 root is left with a single branch, *unless* that branch is itself marked `Infeasible` (both branches were judged
@@ -54,16 +54,19 @@ end
 theorem feasible_flags (st : NState α) (h : st.isFeasible = true) : st.isInfeasible = false ∧ st ≠ .infeasible := by
   cases st <;> simp_all [NState.isFeasible, NState.isInfeasible]
 
+theorem notinf_flags (st : NState α) (h : st.isInfeasible = false) : st.isInfeasible = false ∧ st ≠ .infeasible := by
+  cases st <;> simp_all [NState.isInfeasible]
+
 theorem infeasible_flags (st : NState α) (h : st = .infeasible) : st.isInfeasible = true ∧ st.isFeasible = false := by
   subst h; simp [NState.isFeasible, NState.isInfeasible]
 
 /-- the finished node with two processed children -/
 theorem finish_two_noSingle (i : Nat) (c' : Content α) (ra rb : PT α) (fa fb : Bool) (newInf : List Nat)
     (lastFresh isRoot : Bool)
-    (hA : (ra.val.state = .infeasible ∧ fa = true) ∨ (ra.val.state.isFeasible = true ∧ fa = false))
-    (hB : (rb.val.state = .infeasible ∧ fb = true) ∨ (rb.val.state.isFeasible = true ∧ fb = false))
+    (hA : (ra.val.state = .infeasible ∧ fa = true) ∨ (ra.val.state.isInfeasible = false ∧ fa = false))
+    (hB : (rb.val.state = .infeasible ∧ fb = true) ∨ (rb.val.state.isInfeasible = false ∧ fb = false))
     (nsA : ra.val.state = .infeasible ∨ PT.NoSingle ra) (nsB : rb.val.state = .infeasible ∨ PT.NoSingle rb)
-    (hlf : lastFresh = true ∨ (ra.val.state.isFeasible = true ∧ rb.val.state.isFeasible = true))
+    (hlf : lastFresh = true ∨ (ra.val.state.isInfeasible = false ∧ rb.val.state.isInfeasible = false))
     (hnew : newInf = (if fa then [0] else []) ++ (if fb then [1] else [])) :
     PKids.NoSingle (finishNode i c' (.cons (some ra) (.cons (some rb) .nil)) newInf lastFresh isRoot).kids ∧
     (isRoot = false →
@@ -78,14 +81,13 @@ theorem finish_two_noSingle (i : Nat) (c' : Content α) (ra rb : PT α) (fa fb :
     simp [removeLabels, IKids.set, IKids.count, ITree.kids, PKids.NoSingle, PKids.OneInf, PKids.allInf, hbi]
   · -- first infeasible, second feasible
     obtain ⟨a1, a2⟩ := infeasible_flags _ hai
-    obtain ⟨b1, b2⟩ := feasible_flags _ hbf
-    have hb' : rb.val.state.isFeasible = true := hbf
+    obtain ⟨b1, b2⟩ := notinf_flags _ hbf
     have nsB' : PT.NoSingle rb := nsB.resolve_left b2
     have hlf' : lastFresh = true := by
       rcases hlf with h | ⟨h, _⟩
       · exact h
-      · rw [a2] at h; simp at h
-    have : forwardLabel? (.cons (some ra) (.cons (some rb) .nil)) = some 1 := by simp [forwardLabel?, a1, a2, b1, hb']
+      · rw [a1] at h; simp at h
+    have : forwardLabel? (.cons (some ra) (.cons (some rb) .nil)) = some 1 := by simp [forwardLabel?, a1, b1]
     subst hlf'
     simp only [finishNode, this, if_true]
     cases isRoot with
@@ -94,13 +96,13 @@ theorem finish_two_noSingle (i : Nat) (c' : Content α) (ra rb : PT α) (fa fb :
       simp only [Bool.false_eq_true, if_false, IKids.get?]
       cases rb with
       | node j cc kk => unfold PT.NoSingle at nsB'; simpa [ITree.kids] using ⟨nsB'.2, nsB'.1⟩
-  · obtain ⟨a1, a2⟩ := feasible_flags _ haf
+  · obtain ⟨a1, a2⟩ := notinf_flags _ haf
     obtain ⟨b1, b2⟩ := infeasible_flags _ hbi
     have nsA' : PT.NoSingle ra := nsA.resolve_left a2
     have hlf' : lastFresh = true := by
       rcases hlf with h | ⟨_, h⟩
       · exact h
-      · rw [b2] at h; simp at h
+      · rw [b1] at h; simp at h
     have : forwardLabel? (.cons (some ra) (.cons (some rb) .nil)) = some 0 := by simp [forwardLabel?, a1, b1]
     subst hlf'
     simp only [finishNode, this, if_true]
@@ -110,21 +112,21 @@ theorem finish_two_noSingle (i : Nat) (c' : Content α) (ra rb : PT α) (fa fb :
       simp only [Bool.false_eq_true, if_false, IKids.get?]
       cases ra with
       | node j cc kk => unfold PT.NoSingle at nsA'; simpa [ITree.kids] using ⟨nsA'.2, nsA'.1⟩
-  · obtain ⟨a1, a2⟩ := feasible_flags _ haf
-    obtain ⟨b1, b2⟩ := feasible_flags _ hbf
+  · obtain ⟨a1, a2⟩ := notinf_flags _ haf
+    obtain ⟨b1, b2⟩ := notinf_flags _ hbf
     have : forwardLabel? (.cons (some ra) (.cons (some rb) .nil)) = none := by simp [forwardLabel?, a1, b1]
     simp only [finishNode, this, ite_self, Bool.false_eq_true, if_false, List.append_nil]
     simp [removeLabels, IKids.count, ITree.kids, PKids.NoSingle, PKids.OneInf, nsA.resolve_left a2,
       nsB.resolve_left b2]
 
 /-- what `elimKids` does with one child of a uniform pair -/
-theorem elimChild_uniform {σ : Type} (tol : α) (O : Oracles σ α) (hd : Decisive tol O) (n : Nat)
+theorem elimChild_uniform {σ : Type} (tol : α) (O : Oracles σ α) (n : Nat)
     (path : List (Aff α)) (paff : Aff α) (pst : NState α) (ch : PT α) (l : Nat) (s : σ)
     (hch : ch.val.state = .indeterminate ∨ ch.val.state.isFeasible = true)
     (ih : ∀ (st' : NState α) (s' : σ),
       PT.NoSingle (elimNode tol O n false (path ++ [halfspace paff l]) st' ch s').1) :
     ∀ r, r = elimChild tol O n path paff pst ch l s →
-    ((r.1.val.state = .infeasible ∧ r.2.2.1 = true) ∨ (r.1.val.state.isFeasible = true ∧ r.2.2.1 = false)) ∧
+    ((r.1.val.state = .infeasible ∧ r.2.2.1 = true) ∨ (r.1.val.state.isInfeasible = false ∧ r.2.2.1 = false)) ∧
     (r.1.val.state = .infeasible ∨ PT.NoSingle r.1) ∧
     (r.2.2.2 = true ↔ ch.val.state = .indeterminate) ∧
     (r.2.2.1 = true → ch.val.state = .indeterminate) := by
@@ -140,23 +142,20 @@ theorem elimChild_uniform {σ : Type} (tol : α) (O : Oracles σ α) (hd : Decis
       have := (isInfeasible_iff' _).mp hdi
       exact ⟨Or.inl ⟨by simpa [ITree.val] using this, trivial⟩, Or.inl (by simpa [ITree.val] using this), by simp, by simp⟩
     · simp only [hdi, Bool.false_eq_true, if_false]
-      have hf : (decideNode tol O s ch.idx pst path (halfspace paff l) n).1.isFeasible = true := by
-        rcases not_indeterminate_cases _ (hd s ch.idx pst path (halfspace paff l) n) with h1 | h1
-        · rw [h1] at hdi; simp [NState.isInfeasible] at hdi
-        · exact h1
-      exact ⟨Or.inr ⟨elimNode_state_feasible tol O hd n false _ _ ch _ hf, trivial⟩, Or.inr (ih _ _), by simp [hf], by simp⟩
+      have hni : (decideNode tol O s ch.idx pst path (halfspace paff l) n).1.isInfeasible = false := by simpa using hdi
+      exact ⟨Or.inr ⟨elimNode_state tol O n false _ _ ch _ hni, trivial⟩, Or.inr (ih _ _), by simp, by simp⟩
   | feasible =>
     simp only
-    exact ⟨Or.inr ⟨elimNode_state_feasible tol O hd n false _ _ ch s (by simp [NState.isFeasible]), trivial⟩,
+    exact ⟨Or.inr ⟨elimNode_state tol O n false _ _ ch s (by simp [NState.isInfeasible]), trivial⟩,
       Or.inr (ih _ _), by simp, by simp⟩
   | witness ws =>
     simp only
-    exact ⟨Or.inr ⟨elimNode_state_feasible tol O hd n false _ _ ch s (by simp [NState.isFeasible]), trivial⟩,
+    exact ⟨Or.inr ⟨elimNode_state tol O n false _ _ ch s (by simp [NState.isInfeasible]), trivial⟩,
       Or.inr (ih _ _), by simp, by simp⟩
 
 /-- C06 (structural part): on a total uniform tree the sweep leaves no single-branch decision below the root, except
     above a branch that is itself marked infeasible -/
-theorem noSingle_elimNode {σ : Type} (tol : α) (O : Oracles σ α) (hd : Decisive tol O) (n : Nat)
+theorem noSingle_elimNode {σ : Type} (tol : α) (O : Oracles σ α) (n : Nat)
     (isRoot : Bool) (path : List (Aff α)) (st : NState α) (t : PT α) (s : σ) (hu : PT.TotalUniform t) :
     PKids.NoSingle (elimNode tol O n isRoot path st t s).1.kids ∧
     (isRoot = false → PKids.OneInf (elimNode tol O n isRoot path st t s).1.kids) := by
@@ -177,13 +176,13 @@ theorem noSingle_elimNode {σ : Type} (tol : α) (O : Oracles σ α) (hd : Decis
     simp only [PKids.TotalUniform] at hkids
     have ihA : ∀ (st' : NState α) (s' : σ), PT.NoSingle (elimNode tol O n false (path ++ [halfspace c.aff 0]) st' ka s').1 := by
       intro st' s'
-      have := noSingle_elimNode tol O hd n false (path ++ [halfspace c.aff 0]) st' ka s' hkids.1
+      have := noSingle_elimNode tol O n false (path ++ [halfspace c.aff 0]) st' ka s' hkids.1
       rw [node_eta (elimNode tol O n false (path ++ [halfspace c.aff 0]) st' ka s').1]
       unfold PT.NoSingle
       exact ⟨this.2 rfl, this.1⟩
     have ihB : ∀ (st' : NState α) (s' : σ), PT.NoSingle (elimNode tol O n false (path ++ [halfspace c.aff 1]) st' kb s').1 := by
       intro st' s'
-      have := noSingle_elimNode tol O hd n false (path ++ [halfspace c.aff 1]) st' kb s' hkids.2.1
+      have := noSingle_elimNode tol O n false (path ++ [halfspace c.aff 1]) st' kb s' hkids.2.1
       rw [node_eta (elimNode tol O n false (path ++ [halfspace c.aff 1]) st' kb s').1]
       unfold PT.NoSingle
       exact ⟨this.2 rfl, this.1⟩
@@ -195,8 +194,8 @@ theorem noSingle_elimNode {σ : Type} (tol : α) (O : Oracles σ α) (hd : Decis
       rcases hpair with h | h
       · exact Or.inl h.2
       · exact Or.inr h.2
-    have fa := elimChild_uniform tol O hd n path c.aff st ka 0 s hka ihA _ rfl
-    have fb := fun s1 => elimChild_uniform tol O hd n path c.aff st kb 1 s1 hkb ihB _ rfl
+    have fa := elimChild_uniform tol O n path c.aff st ka 0 s hka ihA _ rfl
+    have fb := fun s1 => elimChild_uniform tol O n path c.aff st kb 1 s1 hkb ihB _ rfl
     rw [elimNode_eq]
     simp only [elimKids_cons_some, elimKids_nil, IKids.count]
     generalize elimChild tol O n path c.aff st ka 0 s = ca at fa
